@@ -147,7 +147,7 @@ def rand_toks(rnd, depth):
 
 def check(ctx):
     C.extract(ctx)
-    C.prove(ctx, ["Oq3.Props.C05", "Oq3.Props.C05Roles", "Oq3.Props.C05RolesTrees"])
+    C.prove(ctx, ["Oq3.Props.C05", "Oq3.Props.C05Events", "Oq3.Props.C05Roles", "Oq3.Props.C05RolesTrees"])
     okb, log = C.cargo_build()
     if not okb:
         C.violation(ctx, "harness-build-failed", {"log": log[-3000:]}, no_input=True)
